@@ -275,6 +275,42 @@ def run_waits(ctx, desc):
                 ctx.inconc(f"emcy.wait deadline: {status}", {"kind": "deadline"})
             elif status != "returned" or val is not None:
                 ctx.violation("emcy-wait-after-deadline", f"wait(0x2222, {T}) returned {val!r} for a frame that arrived {1.25 * T:.2f} s after the call started", {"kind": "deadline"})
+        # 3e. "nothing on time-out" means nothing *after* the time-out: non-matching frames must not use up the
+        #     caller's time.  The call is timed inside the waiting thread (exact, independent of scheduling).
+        if rnd == 0:
+            import time as _t
+            T = 3.0
+            timing = {}
+
+            def timed_wait():
+                timing["t0"] = _t.time()
+                try:
+                    return node.emcy.wait(0x3333, T)
+                finally:
+                    timing["t1"] = _t.time()
+
+            def trickle():
+                for i in range(5):
+                    n = cond.waits
+                    _t.sleep(0.2)
+                    if "t1" in timing:
+                        return
+                    send(0x4000 + i)
+                    cond.reentered(n, 1.0)
+                _t.sleep(0.3)
+                if "t1" not in timing:
+                    send(0x3333, 6)                  # the matching frame, about 1.3 s into a 3 s wait
+            status, val = waits.run_waiter(timed_wait, cond, trickle, grace=T + 3)
+            ctx.count("wait_cases")
+            ctx.case(("wait-several-nonmatching-then-match",))
+            case = {"workload": "waits", "kind": "several-nonmatching", "timeout": T, "call_lasted": timing.get("t1", 0) - timing.get("t0", 0)}
+            if status in ("hung", "never-waited", "not-woken"):
+                ctx.inconc(f"emcy.wait several non-matching: {status}", case)
+            elif status == "returned" and val is None and timing["t1"] - timing["t0"] < T:
+                ctx.violation("emcy-wait-gave-up-before-its-time-out", f"wait(0x3333, {T}) returned None after {timing['t1'] - timing['t0']:.2f} s "
+                              "while non-matching frames kept arriving", case)
+            elif status != "returned" or (val is not None and (val.code != 0x3333 or val.register != 6)):
+                ctx.violation("emcy-wait-filter", f"wait(0x3333) ended {status} with {val!r}", case)
         # 4. only non-matching frames: None
         status, val = waits.run_waiter(lambda: node.emcy.wait(0x1234, 0.05), cond, lambda: send(0x4321))
         ctx.count("wait_cases")
